@@ -90,7 +90,7 @@ func Build(c Config) error {
 	if err := mapTree(filepath.Join(c.Verif, "engine", "vsched"), filepath.Join(c.Repo, "vsched"), overlay); err != nil {
 		return err
 	}
-	if err := mapTree(filepath.Join(c.Verif, "harness"), filepath.Join(c.Repo, "verifh"), overlay); err != nil {
+	if err := mapHarness(filepath.Join(c.Verif, "harness"), filepath.Join(c.Repo, "verifh"), filepath.Join(inst, "_verifh"), overlay, c.Plain); err != nil {
 		return err
 	}
 	ov, _ := json.Marshal(map[string]any{"Replace": overlay})
@@ -138,6 +138,39 @@ func mapTree(src, dst string, overlay map[string]string) error {
 		}
 		rel, _ := filepath.Rel(src, p)
 		overlay[filepath.Join(dst, rel)] = p
+		return nil
+	})
+}
+
+// mapHarness maps the harness tree; directories containing a file named
+// REWRITE are instrumented like repository code (without loop ticks).
+func mapHarness(src, dst, inst string, overlay map[string]string, plain bool) error {
+	return filepath.WalkDir(src, func(p string, d os.DirEntry, err error) error {
+		if err != nil || !d.IsDir() {
+			return err
+		}
+		rel, _ := filepath.Rel(src, p)
+		if _, err := os.Stat(filepath.Join(p, "REWRITE")); err == nil && !plain {
+			m, err := vrewrite.RewriteDir(p, filepath.Join(inst, rel), vrewrite.Options{})
+			if err != nil {
+				return err
+			}
+			for k, v := range m {
+				overlay[filepath.Join(dst, rel, filepath.Base(k))] = v
+			}
+			return nil
+		}
+		ents, err := os.ReadDir(p)
+		if err != nil {
+			return err
+		}
+		for _, e := range ents {
+			n := e.Name()
+			if e.IsDir() || !strings.HasSuffix(n, ".go") || strings.HasSuffix(n, "_test.go") {
+				continue
+			}
+			overlay[filepath.Join(dst, rel, n)] = filepath.Join(p, n)
+		}
 		return nil
 	})
 }
